@@ -33,6 +33,10 @@ pub fn run() {
     show("F8 d/dx x/2 at 0.54 [want 0.5]", guard(|| parse_val::<i32, f64>("x/2").map_err(e)?.partial(0).map_err(e)?.eval(&[Val::Float(0.54)]).map_err(e)));
     // F9
     show("F9 1.0/0 [want inf]", guard(|| parse_val::<i32, f64>("x/y").map_err(e)?.eval(&[Val::Float(1.0), Val::Int(0)]).map_err(e)));
+    // F11: && and || flagged commutative but not associative across value kinds
+    show("F11 x || false || 1 at x=5 [left to right: (5||false)||1 = 1]", guard(|| parse_val::<i32, f64>("x || false || 1").map_err(e)?.eval(&[Val::Int(5)]).map_err(e)));
+    show("F11 x && true && 0 at x=-3 [left to right: 0]", guard(|| parse_val::<i32, f64>("x && true && 0").map_err(e)?.eval(&[Val::Int(-3)]).map_err(e)));
+    show("F11 reference (x || false) || 1 at x=5", guard(|| parse_val::<i32, f64>("(x || false) || 1").map_err(e)?.eval(&[Val::Int(5)]).map_err(e)));
     // F6 (known finding)
     show("F6 d/dx x: vars, text, reparsed vars", guard(|| { let d = FlatEx::<f64>::parse("x").map_err(e)?.partial(0).map_err(e)?; let t = d.unparse().to_string(); let r = FlatEx::<f64>::parse(&t).map_err(e)?; Ok((d.var_names().to_vec(), t, r.var_names().to_vec())) }));
 }
